@@ -222,4 +222,32 @@ def stateWrapperGen (w : PWrapper) : Option Str :=
 
 end
 
+/-! ### the `NodeInfo` of an argument -/
+
+def niLookup (w : List (String × NISrc)) (f : String) : NISrc :=
+  match w.find? (fun r => r.1 == f) with
+  | some r => r.2
+  | none => .other
+
+def niStr (s : ArgSite) : NISrc → Str
+  | .parameter => s.param
+  | .taskName => s.taskName
+  | .modulePath => s.modulePath.getD []
+  | .moduleDir => s.moduleDir
+  | _ => []
+
+def niPath (s : ArgSite) : NISrc → Option Str
+  | .modulePath => s.modulePath
+  | .moduleDir => some s.moduleDir
+  | _ => none
+
+def niTree (s : ArgSite) : NISrc → List PyVal
+  | .treePath => s.treePath
+  | _ => []
+
+/-- the `NodeInfo` as wired in the source -/
+def nodeInfoGen (w : List (String × NISrc)) (s : ArgSite) : NodeInfo :=
+  ⟨niStr s (niLookup w "arg_name"), niTree s (niLookup w "path"), niStr s (niLookup w "task_name"),
+   niPath s (niLookup w "task_path")⟩
+
 end Pytask.Hash.Gen
